@@ -158,6 +158,15 @@ func (c *Ctx) region(f *core.Func) []*core.Func {
 	for _, l := range f.Lits {
 		in[l] = true
 	}
+	// a function that only hands its arguments to another function of the package
+	// (the old entry point kept as a wrapper of a variant with more parameters)
+	// shares the region of that function
+	for g, n := c.delegateOf(f), 0; g != nil && n < 3; g, n = c.delegateOf(g), n+1 {
+		in[g] = true
+		for _, l := range g.Lits {
+			in[l] = true
+		}
+	}
 	cg := c.P.CG()
 	for changed := true; changed; {
 		changed = false
@@ -264,4 +273,98 @@ func (c *Ctx) heredocReader(rr *core.RuleResult) *core.Func {
 		return c.fn("parser.(*lexer).lexHeredoc")
 	}
 	return c.mustFn(rr, "parser.(*lexer).lexHeredoc")
+}
+
+// errorReporters returns the parser lexer's error recorder and every private
+// function of the package that reports through it unconditionally (a
+// formatting wrapper such as errorf): one of the top-level statements of its
+// body is a call of a reporter.
+func (c *Ctx) errorReporters() map[*core.Func]bool {
+	if v, ok := c.cache["errorReporters"]; ok {
+		return v.(map[*core.Func]bool)
+	}
+	out := map[*core.Func]bool{}
+	if e := c.fn("parser.(*lexer).error"); e != nil {
+		out[e] = true
+	}
+	for changed := true; changed; {
+		changed = false
+		for _, f := range c.funcsOfPkg("parser", false) {
+			if out[f] || f.Decl == nil || f.Obj == nil || f.Obj.Exported() {
+				continue
+			}
+			info := f.Info()
+			for _, st := range f.Body.List {
+				es, ok := st.(*ast.ExprStmt)
+				if !ok {
+					continue
+				}
+				if call, ok := es.X.(*ast.CallExpr); ok {
+					if fo := core.StaticCallee(info, call); fo != nil && out[c.P.FuncOf(fo)] {
+						out[f] = true
+						changed = true
+					}
+				}
+			}
+		}
+	}
+	c.cache["errorReporters"] = out
+	return out
+}
+
+// callsReporter reports whether n contains a call of an error reporter.
+func (c *Ctx) callsReporter(info *types.Info, n ast.Node) bool {
+	reps := c.errorReporters()
+	found := false
+	ast.Inspect(n, func(x ast.Node) bool {
+		if call, ok := x.(*ast.CallExpr); ok {
+			if fo := core.StaticCallee(info, call); fo != nil && reps[c.P.FuncOf(fo)] {
+				found = true
+			}
+		}
+		return !found
+	})
+	return found
+}
+
+// delegateOf returns the function f hands over to when f's body is nothing but
+// `return g(…)` (or `g(…)` for a function without results) with g declared in
+// the same package; nil otherwise.
+func (c *Ctx) delegateOf(f *core.Func) *core.Func {
+	if f == nil || f.Decl == nil || f.Body == nil || len(f.Body.List) != 1 {
+		return nil
+	}
+	var call *ast.CallExpr
+	switch st := f.Body.List[0].(type) {
+	case *ast.ReturnStmt:
+		if len(st.Results) == 1 {
+			call, _ = ast.Unparen(st.Results[0]).(*ast.CallExpr)
+		}
+	case *ast.ExprStmt:
+		call, _ = st.X.(*ast.CallExpr)
+	}
+	if call == nil {
+		return nil
+	}
+	fo := core.StaticCallee(f.Info(), call)
+	if fo == nil {
+		return nil
+	}
+	g := c.P.FuncOf(fo)
+	if g == nil || g == f || g.Pkg != f.Pkg || g.Body == nil || g.Generated {
+		return nil
+	}
+	return g
+}
+
+// effective follows delegateOf to the function that does the work.
+func (c *Ctx) effective(f *core.Func) *core.Func {
+	for n := 0; f != nil && n < 3; n++ {
+		g := c.delegateOf(f)
+		if g == nil {
+			break
+		}
+		f = g
+	}
+	return f
 }
